@@ -47,17 +47,38 @@ type farm struct {
 	hits map[int]int
 	down map[int]bool
 	last map[int]string // last request of a target as it arrived: path ? sorted query
+	// resetFirst: the first request to the target is answered with 200, a few lines, and a TCP reset
+	resetFirst map[int]bool
 }
 
 func newFarm() *farm {
-	f := &farm{size: map[int]int{}, drop: map[int]int{}, hits: map[int]int{}, down: map[int]bool{}, last: map[int]string{}}
+	f := &farm{size: map[int]int{}, drop: map[int]int{}, hits: map[int]int{}, down: map[int]bool{}, last: map[int]string{}, resetFirst: map[int]bool{}}
 	f.srv = httptest.NewServer(http.HandlerFunc(func(w http.ResponseWriter, r *http.Request) {
 		id, _ := strconv.Atoi(r.URL.Query().Get("id"))
 		f.mu.Lock()
 		f.hits[id]++
 		f.last[id] = WireForm(r.URL)
 		n, d, down := f.size[id], f.drop[id], f.down[id]
+		reset := f.resetFirst[id]
+		delete(f.resetFirst, id)
 		f.mu.Unlock()
+		if reset {
+			if hj, ok := w.(http.Hijacker); ok {
+				if c, _, err := hj.Hijack(); err == nil {
+					var sb strings.Builder
+					for i := 0; i < 40; i++ {
+						fmt.Fprintf(&sb, "kept_series{t=\"%d\",i=\"%d\"} 1\n", id, i)
+					}
+					fmt.Fprintf(c, "HTTP/1.1 200 OK\r\nContent-Type: text/plain; version=0.0.4\r\nContent-Length: %d\r\n\r\n%s", 40*(n+d)+100000, sb.String())
+					time.Sleep(30 * time.Millisecond)
+					if tc, ok := c.(*net.TCPConn); ok {
+						_ = tc.SetLinger(0)
+					}
+					c.Close()
+					return
+				}
+			}
+		}
 		if down {
 			w.WriteHeader(503)
 			return
@@ -108,8 +129,10 @@ type rshard struct {
 	last     map[uint64]int64
 	tsdb     int64
 	reloads  int64
-	rtGets   int64 // runtimeinfo requests seen = coordination cycles that reached this shard
-	failAPI  int32 // > 0: the front answers 502 (shard unreachable for the coordinator)
+	rtGets   int64  // runtimeinfo requests seen = coordination cycles that reached this shard
+	failAPI  int32  // > 0: the front answers 502 (shard unreachable for the coordinator)
+	failProm int32  // > 0: this pod's Prometheus answers 500 to POST /-/reload
+	cfgFile  string // file mode: the sidecar's --config.file
 	lastErr  string
 	apiURL   atomic.Value // string: where the front forwards to
 	stopped  bool
@@ -205,7 +228,11 @@ func (s *rshard) scrapeRound() {
 }
 
 func (s *rshard) startSidecar() error {
-	sc, err := e3.StartRealSidecar(s.bin, s.dir, s.prom.URL, func() int64 { return atomic.LoadInt64(&s.tsdb) })
+	var extra []string
+	if s.cfgFile != "" {
+		extra = append(extra, "--config.file="+s.cfgFile)
+	}
+	sc, err := e3.StartRealSidecar(s.bin, s.dir, s.prom.URL, func() int64 { return atomic.LoadInt64(&s.tsdb) }, extra...)
 	if err != nil {
 		return err
 	}
@@ -214,8 +241,8 @@ func (s *rshard) startSidecar() error {
 	return nil
 }
 
-func newShard(id, dir, bin string) (*rshard, error) {
-	s := &rshard{id: id, dir: dir, bin: bin, last: map[uint64]int64{}}
+func newShard(id, dir, bin, cfgFile string) (*rshard, error) {
+	s := &rshard{id: id, dir: dir, bin: bin, cfgFile: cfgFile, last: map[uint64]int64{}}
 	_ = os.MkdirAll(dir, 0755)
 	s.prom = httptest.NewServer(http.HandlerFunc(func(w http.ResponseWriter, r *http.Request) {
 		w.Header().Set("Content-Type", "application/json")
@@ -225,6 +252,10 @@ func newShard(id, dir, bin string) (*rshard, error) {
 			fmt.Fprintf(w, `{"status":"success","data":{"headStats":{"numSeries":%d}}}`, s.head())
 		case strings.HasSuffix(r.URL.Path, "/-/reload"):
 			atomic.AddInt64(&s.reloads, 1)
+			if atomic.LoadInt32(&s.failProm) > 0 {
+				w.WriteHeader(500)
+				return
+			}
 			if err := s.reload(); err != nil {
 				w.WriteHeader(500)
 				return
@@ -277,28 +308,32 @@ func (s *rshard) status() (map[uint64]*target.ScrapeStatus, error) {
 
 // Spec of one run.
 type Spec struct {
-	MaxHead  int64
-	MaxProc  int64
-	Idle     string // coordinator flag value, "" = 0
-	NShards  int
-	Sizes    map[int][2]int // target id -> kept, dropped
-	Interval time.Duration
-	Down     []int // targets that answer 503 from the start
-	Rich     bool  // a job with params (multi-valued), a non-canonical path and relabeling that rewrites path and labels
+	MaxHead     int64
+	MaxProc     int64
+	Idle        string // coordinator flag value, "" = 0
+	NShards     int
+	Sizes       map[int][2]int // target id -> kept, dropped
+	Interval    time.Duration
+	Down        []int  // targets that answer 503 from the start
+	FileMode    bool   // the sidecars read the configuration from their own file (--config.file, the default of the binary) instead of being pushed it
+	InitTimeout string // --sd.init-timeout of the coordinator (default 20s)
+	ResetFirst  []int  // targets whose first response breaks off with a TCP reset
+	Rich        bool   // a job with params (multi-valued), a non-canonical path and relabeling that rewrites path and labels
 }
 
 // Loop is a running system.
 type Loop struct {
-	Spec      Spec
-	dir       string
-	bin       string
-	farm      *farm
-	shards    []*rshard
-	coord     *exec.Cmd
-	coordOut  *lockedBuf
-	coordAPI  string
-	coordDone chan error
-	targets   map[int]bool // currently configured target ids
+	Spec         Spec
+	dir          string
+	bin          string
+	farm         *farm
+	shards       []*rshard
+	coord        *exec.Cmd
+	coordOut     *lockedBuf
+	coordAPI     string
+	coordDone    chan error
+	coordStarted time.Time
+	targets      map[int]bool // currently configured target ids
 }
 
 const richJobHead = `global:
@@ -407,6 +442,19 @@ func freePort() int {
 	return 0
 }
 
+func (l *Loop) initTimeout() time.Duration {
+	if d, err := time.ParseDuration(l.Spec.InitTimeout); err == nil && d > 0 {
+		return d
+	}
+	return 20 * time.Second
+}
+
+// CoordinatorUptime is the time since the coordinator process was (last) started.
+func (l *Loop) CoordinatorUptime() time.Duration { return time.Since(l.coordStarted) }
+
+// InitTimeout is the coordinator's --sd.init-timeout.
+func (l *Loop) InitTimeout() time.Duration { return l.initTimeout() }
+
 func (l *Loop) startCoordinator() error {
 	port := freePort()
 	if port == 0 {
@@ -415,7 +463,7 @@ func (l *Loop) startCoordinator() error {
 	l.coordAPI = fmt.Sprintf("http://127.0.0.1:%d", port)
 	args := []string{"coordinator", "--shard.type=static", "--shard.static-file=" + filepath.Join(l.dir, "shards.yaml"),
 		"--config.file=" + filepath.Join(l.dir, "prometheus.yml"), fmt.Sprintf("--web.address=127.0.0.1:%d", port),
-		"--coordinator.interval=" + l.Spec.Interval.String(), "--sd.init-timeout=20s",
+		"--coordinator.interval=" + l.Spec.Interval.String(), "--sd.init-timeout=" + l.initTimeout().String(),
 		fmt.Sprintf("--shard.max-process-series=%d", l.Spec.MaxProc), fmt.Sprintf("--shard.max-head-series=%d", l.Spec.MaxHead)}
 	if l.Spec.Idle != "" {
 		args = append(args, "--shard.max-idle-time="+l.Spec.Idle)
@@ -426,6 +474,7 @@ func (l *Loop) startCoordinator() error {
 	if err := l.coord.Start(); err != nil {
 		return err
 	}
+	l.coordStarted = time.Now()
 	l.coordDone = make(chan error, 1)
 	go func(c *exec.Cmd, ch chan error) { ch <- c.Wait() }(l.coord, l.coordDone)
 	return nil
@@ -463,8 +512,23 @@ func Start(spec Spec, dir, bin string) (*Loop, error) {
 	for _, id := range spec.Down {
 		l.farm.down[id] = true
 	}
+	for _, id := range spec.ResetFirst {
+		l.farm.resetFirst[id] = true
+	}
+	if spec.FileMode {
+		if err := l.writeConfig(); err != nil {
+			return nil, err
+		}
+	}
 	for i := 0; i < spec.NShards; i++ {
-		s, err := newShard(fmt.Sprintf("shard-%d", i), filepath.Join(dir, fmt.Sprintf("pvc-%d", i)), bin)
+		cfgFile := ""
+		if spec.FileMode {
+			cfgFile = filepath.Join(dir, fmt.Sprintf("shard-%d.yml", i))
+			if err := copyFile(filepath.Join(dir, "prometheus.yml"), cfgFile); err != nil {
+				return nil, err
+			}
+		}
+		s, err := newShard(fmt.Sprintf("shard-%d", i), filepath.Join(dir, fmt.Sprintf("pvc-%d", i)), bin, cfgFile)
 		if err != nil {
 			l.Close()
 			return nil, err
@@ -569,7 +633,37 @@ func (l *Loop) Reconfigure(add map[int][2]int, remove []int) error {
 	if resp.StatusCode != 200 {
 		return fmt.Errorf("coordinator reload: code %d %s", resp.StatusCode, tailS(string(b), 200))
 	}
+	if l.Spec.FileMode {
+		// the roll-out reaches every shard: its file changes and its sidecar is told to reload (what the config
+		// reloader next to it does); a sidecar whose Prometheus refuses the reload answers with an error
+		for _, s := range l.shards {
+			if err := copyFile(filepath.Join(l.dir, "prometheus.yml"), s.cfgFile); err != nil {
+				return err
+			}
+			if r2, err := http.Post(s.sc.API()+"/-/reload/", "application/json", nil); err == nil {
+				io.Copy(io.Discard, r2.Body)
+				r2.Body.Close()
+			}
+		}
+	}
 	return nil
+}
+
+func copyFile(from, to string) error {
+	b, err := os.ReadFile(from)
+	if err != nil {
+		return err
+	}
+	return os.WriteFile(to, b, 0644)
+}
+
+// FailPrometheusReload makes the Prometheus of shard i answer 500 to POST /-/reload until cleared.
+func (l *Loop) FailPrometheusReload(i int, on bool) {
+	v := int32(0)
+	if on {
+		v = 1
+	}
+	atomic.StoreInt32(&l.shards[i].failProm, v)
 }
 
 // RestartSidecar kills shard i's sidecar (SIGKILL) and starts it again on the same volume.
